@@ -127,7 +127,7 @@ func TestC07(t *testing.T) {
 				if pbt.OpenFinding("C03-klv-multi-item") && klvMultiItemEarlyReturn(c.Stream) {
 					c.Stream, _ = klvAvoidClass(c.Stream)
 				}
-				st, err := runC07(c)
+				st, err := pbt.Safe(runC07, c)
 				if st == nil {
 					st = &faultStats{Kinds: map[string]bool{}}
 				}
@@ -161,7 +161,7 @@ func TestC08(t *testing.T) {
 		t.Run(name, func(t *testing.T) {
 			rapid.Check(t, func(rt *rapid.T) {
 				c := genHostileCase(rt, f, maxOps, maxCount)
-				st, err := runC08(c)
+				st, err := pbt.Safe(runC08, c)
 				if st == nil {
 					st = &hostileStats{}
 				}
@@ -186,7 +186,7 @@ func TestC08Growth(t *testing.T) {
 			t.Run(name+"/"+kind, func(t *testing.T) {
 				rapid.Check(t, func(rt *rapid.T) {
 					c := genGrowthCase(rt, f, packets, kind)
-					st, err := runC08(c)
+					st, err := pbt.Safe(runC08, c)
 					if st == nil {
 						st = &hostileStats{}
 					}
@@ -226,7 +226,7 @@ func TestC08Tiny(t *testing.T) {
 					{Kind: "start", Count: 1, Size: 100, Fill: 3, NewTS: true},
 					{Kind: "mid", Count: packets, Size: size, Fill: 9},
 				}
-				st, err := runC08(c)
+				st, err := pbt.Safe(runC08, c)
 				if st == nil {
 					st = &hostileStats{}
 				}
